@@ -72,30 +72,5 @@ impl std::io::Write for Sink {
     fn flush(&mut self) -> std::io::Result<()> { Ok(()) }
 }
 
-// @harness name=table_rows_layout kind=Bk tier=thorough props=C01,C02,C08 bound="table with 2 columns (Int16, Int32) x 2 rows, all valid values" desc="Table::write_rows emits the cells column-major (all of column 1, then all of column 2) with the widths the column types dictate, offset-binary, and Table::read_rows of those bytes returns the same rows"
-#[kani::proof]
-#[kani::unwind(6)]
-#[kani::stub(alloc::fmt::format, stub_format)]
-fn table_rows_layout() {
-    let columns = vec![Column::build("a").int16(), Column::build("b").int32()];
-    let table = Table { name: String::new(), columns, long_string_refs: false };
-    let a: [i32; 2] = kani::any();
-    let b: [i32; 2] = kani::any();
-    kani::assume(a[0] > i16::MIN as i32 && a[0] <= i16::MAX as i32 && a[1] > i16::MIN as i32 && a[1] <= i16::MAX as i32);
-    kani::assume(b[0] > i32::MIN && b[1] > i32::MIN);
-    let rows = vec![vec![ValueRef::Int(a[0]), ValueRef::Int(b[0])], vec![ValueRef::Int(a[1]), ValueRef::Int(b[1])]];
-    let mut sink = Sink { buf: [0; 16], n: 0 };
-    let r = table.write_rows(&mut sink, rows);
-    assert!(r.is_ok());
-    assert!(sink.n == 12);
-    let w16 = |o: usize| u16::from_le_bytes([sink.buf[o], sink.buf[o + 1]]) as i32 - 0x8000;
-    let w32 = |o: usize| (u32::from_le_bytes([sink.buf[o], sink.buf[o + 1], sink.buf[o + 2], sink.buf[o + 3]]) as i64 - 0x8000_0000i64) as i32;
-    assert!(w16(0) == a[0] && w16(2) == a[1]);
-    assert!(w32(4) == b[0] && w32(8) == b[1]);
-    let back = must(table.read_rows(std::io::Cursor::new(&sink.buf[..12])));
-    assert!(back.len() == 2);
-    assert!(back[0][0] == ValueRef::Int(a[0]) && back[0][1] == ValueRef::Int(b[0]));
-    assert!(back[1][0] == ValueRef::Int(a[1]) && back[1][1] == ValueRef::Int(b[1]));
-    core::mem::forget(back);
-    core::mem::forget(table);
-}
+// (table_rows_layout, a bounded 2x2 harness, grew to > 40 GB in CBMC and was removed: Table::write_rows is proved
+// in Verus, contracts/serial.vt; Table::read_rows is outside the verified set)
